@@ -455,7 +455,23 @@ def _norm_node(n):
                 items.extend(x[1])
             else:
                 items.append(x)
-        return (k, tuple(items))
+        # short-circuit on decided operands: False and x -> False, True and x -> x (or: dually); the value of the last operand stands
+        kept = []
+        for i, x in enumerate(items):
+            last = i == len(items) - 1
+            if is_const(x) and isinstance(x[1], bool) or (is_const(x) and x[1] is None):
+                truthy = bool(x[1])
+                if (k == "and" and not truthy) or (k == "or" and truthy):
+                    if not kept:
+                        return x
+                    kept.append(x)
+                    break
+                if not last:
+                    continue  # a neutral operand in front of others
+            kept.append(x)
+        if len(kept) == 1:
+            return kept[0]
+        return (k, tuple(kept))
     if k == "call":
         fn, args = n[1], n[2]
         kw = n[3] if len(n) > 3 else ()
@@ -599,7 +615,7 @@ def root_of(e):
 
 
 # ----------------------------------------------------------------------------- tolerant comparison (formula conformance)
-def first_diff(want, got, tol: float = 1e-12, path: str = ""):
+def first_diff(want, got, tol: float = 0.0, path: str = ""):
     """None if equal up to relative tolerance on float constants, else (path, kind, want, got);
     kind: 'const' | 'function' | 'operator' | 'operand' | 'shape'"""
     if want == got:
